@@ -22,7 +22,7 @@ RULE = (
     "and -v. Oracle: vc2_bitstream_validator.main() in-process vs a direct parse_stream of the same bytes: conformant -> exit 0 "
     "and exactly N .raw/.json pairs numbered 0..N-1 whose file_format.read() equals the N pictures, video parameters and coding "
     "modes the decoder callback produced, in order; non-conformant -> exit 2, stdout has 'Conformance error at bit offset <int>' "
-    "and the Details / Suggested bitstream viewer commands / Pseudocode traceback sections; never exit 3, never an escaping "
+    "with <int> equal to the error's own offending offset (else the decoder's read position), and the Details / Suggested bitstream viewer commands / Pseudocode traceback sections; never exit 3, never an escaping "
     "exception. Non-trivial = exit 0 with >= 2 pictures compared, or exit 2 after >= 1 picture had been written; distinct by "
     "(bytes, options) hash."
 )
@@ -125,8 +125,20 @@ def run_cli(data, pattern, flags, col):
             if code != 2:
                 col.fail("nonconformant-but-exit-%r" % code, rec, "parse_stream raised %s but command exited %r" % (type(ref.error).__name__, code))
                 return "exit_%r" % code, True
-            if not re.search(r"Conformance error at bit offset \d+\n=+\n", text):
+            m = re.search(r"Conformance error at bit offset (\d+)\n=+\n", text)
+            if not m:
                 col.fail("no-located-title", rec, "stdout lacks 'Conformance error at bit offset <int>'")
+            else:
+                # the location must be the one the error itself names, else the decoder's read position
+                from vc2_conformance.bitstream.io import to_bit_offset
+                from vc2_conformance.decoder import tell
+
+                want = ref.error.offending_offset()
+                if want is None:
+                    want = to_bit_offset(*tell(ref.state))
+                if int(m.group(1)) != want:
+                    col.fail("wrong-location", rec, "%s reported at bit offset %s, the error is located at %d" % (
+                        type(ref.error).__name__, m.group(1), want))
             for section in ("Details\n-------", "Suggested bitstream viewer commands\n---", "Pseudocode traceback\n---"):
                 if section not in text:
                     col.fail("missing-section", rec, "stdout lacks section %r" % section.split("\n")[0])
